@@ -122,3 +122,15 @@ func BadClosureLoop(xs []float64) float64 {
 	}
 	return s
 }
+
+// continue in a for-cond loop would have to run the post statement
+func BadContinueWhile(x float64) float64 {
+	for x < 10 {
+		x *= 2
+		if x < 3 {
+			continue
+		}
+		x++
+	}
+	return x
+}
